@@ -341,6 +341,81 @@ Definition toy_worker_t (t : tree) : tree :=
                     (of_TI (tnth t 6)) (of_TI (tnth t 7))
                     (map (fun x => Z.to_nat (of_TI x)) (of_TL (tnth t 8)))).
 
+(* ---- the repaired caller loop (py7zr.py Worker.decompress, `stalled`) ---- *)
+(* MAX_STALLED_ROUNDS (py7zr.py l.75) *)
+Definition max_stalled_rounds : Z := 16.
+
+(* Worker.decompress loop with the stall guard (py7zr.py l.1545-1568).
+   stalled = number of rounds since the last delivering round in which
+   decompress returned b"" AND decompressor.consumed did not change.  A round
+   that returns b"" but consumed input leaves stalled unchanged (the Python has
+   no else-branch there).  raise Bad7zFile -> Err EBad7z. *)
+Fixpoint worker_loop_g {stage_st : Type} (dstep : stage_st -> bytes -> Z -> stage_st * bytes)
+         (fuel : nat) (stalled : Z) (st : dstate stage_st) (size max_block : Z)
+         (sched : list nat) : res (dstate stage_st * bytes) :=
+  if size >? 0 then
+    match fuel with
+    | O => Err EFuel
+    | S fuel' =>
+      do r <- decompress dstep st (Z.min size max_block) (sched_hd st sched);
+      let '(st', tmp) := r in
+      let rem := if zlen tmp >? 0 then size - zlen tmp else size in
+      do stalled' <- (if zlen tmp >? 0 then Ok 0
+                      else if consumed st' =? consumed st then
+                             (if stalled + 1 >? max_stalled_rounds then Err EBad7z
+                              else Ok (stalled + 1))
+                           else Ok stalled);
+      if rem <=? 0 then Ok (st', tmp)
+      else
+        do r' <- worker_loop_g dstep fuel' stalled' st' rem max_block (tl sched);
+        let '(st'', out) := r' in
+        Ok (st'', tmp ++ out)
+    end
+  else Ok (st, []).
+
+Definition worker_decompress_g {stage_st : Type}
+           (dstep : stage_st -> bytes -> Z -> stage_st * bytes)
+           (fuel : nat) (st : dstate stage_st) (size max_block : Z) (sched : list nat)
+  : res (dstate stage_st * bytes) :=
+  worker_loop_g dstep fuel 0 st size max_block sched.
+
+(* instrumentation of the UNGUARDED loop (specification only): the largest
+   value the stalled counter would take, starting from [stalled] *)
+Fixpoint worker_stall_max {stage_st : Type} (dstep : stage_st -> bytes -> Z -> stage_st * bytes)
+         (fuel : nat) (stalled : Z) (st : dstate stage_st) (size max_block : Z)
+         (sched : list nat) : Z :=
+  if size >? 0 then
+    match fuel with
+    | O => stalled
+    | S fuel' =>
+      match decompress dstep st (Z.min size max_block) (sched_hd st sched) with
+      | Err _ => stalled
+      | Ok (st', tmp) =>
+        let rem := if zlen tmp >? 0 then size - zlen tmp else size in
+        let stalled' := if zlen tmp >? 0 then 0
+                        else if consumed st' =? consumed st then stalled + 1 else stalled in
+        if rem <=? 0 then Z.max stalled stalled'
+        else Z.max stalled
+                   (worker_stall_max dstep fuel' stalled' st' rem max_block (tl sched))
+      end
+    end
+  else stalled.
+
+Definition toy_worker_g (fuel : nat) (sts : list toy_state) (us : list Z) (isz bsz : Z)
+           (packed : bytes) (size mb : Z) (sched : list nat) : res bytes :=
+  do r <- worker_decompress_g toy_dstep fuel (toy_init sts us isz bsz packed) size mb sched;
+  Ok (snd r).
+
+(* args: [fuel; states; unpacksizes; input_size; block_size; packed; size; mb; sched] *)
+Definition toy_worker_g_t (t : tree) : tree :=
+  t_res t_bytes
+        (toy_worker_g (Z.to_nat (of_TI (tnth t 0)))
+                      (map t_toy_state (of_TL (tnth t 1))) (map of_TI (of_TL (tnth t 2)))
+                      (of_TI (tnth t 3)) (of_TI (tnth t 4)) (of_bytes (tnth t 5))
+                      (of_TI (tnth t 6)) (of_TI (tnth t 7))
+                      (map (fun x => Z.to_nat (of_TI x)) (of_TL (tnth t 8)))).
+
+
 (* ===================================================================== *)
 (*                              PART 2 : PROOFS                          *)
 (* ===================================================================== *)
